@@ -45,7 +45,7 @@ def main():
                 out[sweep.key(d["sha"], d["opts"])] = d["what"][:120]
         elif prop == "C05":
             from props import c05
-            for d in c05.purity_suite(ctx).disagreements:
+            for d in c05.purity_suite(ctx)[0].disagreements:
                 out[sweep.key(d["sha"], {}, d["rule"])] = d["what"][:120]
             for d in c05.history_suite(ctx).disagreements:
                 out[sweep.key(d["sha"], d["opts"], "history")] = d["what"][:120]
